@@ -9,6 +9,7 @@ import (
 	"time"
 
 	"github.com/cbeuw/Cloak/internal/common"
+	"github.com/cbeuw/Cloak/internal/verifhook"
 
 	log "github.com/sirupsen/logrus"
 )
@@ -148,6 +149,7 @@ func (sesh *Session) OpenStream() (*Stream, error) {
 	if sesh.IsClosed() {
 		return nil, ErrBrokenSession
 	}
+	verifhook.At("sesh.open.checked")
 	id := atomic.AddUint32(&sesh.nextStreamID, 1) - 1
 	// Because atomic.AddUint32 returns the value after incrementation
 	if sesh.Singleplex && id > 1 {
@@ -159,6 +161,7 @@ func (sesh *Session) OpenStream() (*Stream, error) {
 	sesh.streamsM.Lock()
 	sesh.streams[id] = stream
 	sesh.streamsM.Unlock()
+	verifhook.At("sesh.open.registered", uint64(id))
 	sesh.streamCountIncr()
 	log.Tracef("stream %v of session %v opened", id, sesh.id)
 	return stream, nil
@@ -258,6 +261,7 @@ func (sesh *Session) recvDataFromRemote(data []byte) error {
 		sesh.streams[frame.StreamID] = newStream
 		sesh.acceptCh <- newStream
 		sesh.streamsM.Unlock()
+		verifhook.At("sesh.recv.published", uint64(frame.StreamID))
 		// new stream
 		sesh.streamCountIncr()
 		return newStream.recvFrame(frame)
@@ -344,6 +348,7 @@ func (sesh *Session) IsClosed() bool {
 
 func (sesh *Session) checkTimeout() {
 	if sesh.streamCount() == 0 && !sesh.IsClosed() {
+		verifhook.At("sesh.timeout.decided")
 		sesh.SetTerminalMsg("timeout")
 		sesh.Close()
 	}
